@@ -334,8 +334,14 @@ func genSrcClass(r *rng.R, t *tb, npk int, want map[int]bool, record func(i int,
 			p := extName()
 			plan.ext = append(plan.ext, Node{Path: B(p), Kind: "file", Content: B("single\n")})
 			plan.lines = append(plan.lines, "file "+r.Pick(srcDirs)+"/"+srcPlainName(r)+".cp src="+extMark+p+r.Pick(srcOpts))
+			if r.Bool() { // two entries from one singly linked source
+				plan.lines = append(plan.lines, "file "+r.Pick(srcDirs)+"/"+srcPlainName(r)+".cq src="+extMark+p+r.Pick(srcOpts))
+			}
 		case 2:
 			plan.lines = append(plan.lines, "file /etc/vim/vimrc src=$$stageroot/etc/passwd"+r.Pick(srcOpts))
+			if r.Bool() {
+				plan.lines = append(plan.lines, "file /etc/vim/vimrc.orig src=$$stageroot/etc/passwd"+r.Pick(srcOpts))
+			}
 		case 3:
 			if r.Chance(1, 3) {
 				plan.lines = append(plan.lines, "file /opt/app/gone src="+r.Pick([]string{"$$stageroot/no/such/file", extMark + "/nothing"}))
